@@ -82,6 +82,8 @@ class CFG:
     self.exit = self._new('exit', None)
     self.raise_exit = self._new('raise', None)
     self._handlers = [self.raise_exit]
+    self._bool_temps = self._find_bool_temps(fn)
+    self._inlining: List[str] = []
     self._handler_depth: Dict[int, int] = {}
     self._finallies: List[Tuple[ast.Try, list]] = []
     self._loops = []
@@ -90,6 +92,76 @@ class CFG:
     self._connect(tails, self.exit)
 
   # ------------------------------------------------------------ building
+  @staticmethod
+  def _find_bool_temps(fn):
+    """Locals assigned exactly once to a boolean-valued expression:
+    `ok = a and b` ... `if ok:` is analysed as `if a and b:` (named-boolean
+    refactorings stay transparent).  Returns {name: (value, def_line,
+    {free name: [assignment lines]})}; a use site may inline the temp only if
+    no free name is re-assigned between the definition and the use."""
+    if isinstance(fn, ast.Lambda):
+      return {}
+    lines: Dict[str, List[int]] = {}
+    values: Dict[str, ast.AST] = {}
+    params = set()
+    a = fn.args
+    for p in a.posonlyargs + a.args + a.kwonlyargs:
+      params.add(p.arg)
+    if a.vararg:
+      params.add(a.vararg.arg)
+    if a.kwarg:
+      params.add(a.kwarg.arg)
+    def note(nm, ln, simple=None):
+      lines.setdefault(nm, []).append(ln)
+      if simple is not None:
+        values[nm] = simple
+    for n in A.walk_local(fn):
+      if isinstance(n, ast.Assign):
+        for t in n.targets:
+          for nm in A.assigned_names(t):
+            note(nm, n.lineno, n.value if isinstance(t, ast.Name) else None)
+      elif isinstance(n, (ast.AugAssign, ast.AnnAssign)):
+        for nm in A.assigned_names(n.target):
+          note(nm, n.lineno)
+          note(nm, n.lineno)
+      elif isinstance(n, (ast.For, ast.AsyncFor)):
+        for nm in A.assigned_names(n.target):
+          note(nm, n.lineno)
+          note(nm, n.lineno)
+      elif isinstance(n, ast.comprehension):
+        for nm in A.assigned_names(n.target):
+          note(nm, getattr(n.target, 'lineno', 0))
+          note(nm, getattr(n.target, 'lineno', 0))
+      elif isinstance(n, (ast.With, ast.AsyncWith)):
+        for it in n.items:
+          if it.optional_vars is not None:
+            for nm in A.assigned_names(it.optional_vars):
+              note(nm, n.lineno)
+              note(nm, n.lineno)
+      elif isinstance(n, ast.NamedExpr) and isinstance(n.target, ast.Name):
+        note(n.target.id, n.lineno)
+        note(n.target.id, n.lineno)
+    out = {}
+    for nm, v in values.items():
+      if len(lines.get(nm, [])) != 1 or nm in params:
+        continue
+      if not isinstance(v, (ast.Compare, ast.BoolOp)) and not (
+          isinstance(v, ast.UnaryOp) and isinstance(v.op, ast.Not)):
+        continue
+      free = {x.id for x in ast.walk(v) if isinstance(x, ast.Name)}
+      out[nm] = (v, lines[nm][0], {x: lines.get(x, []) for x in free})
+    return out
+
+  def _inlinable(self, name, use_line) -> bool:
+    v, def_line, free = self._bool_temps[name]
+    in_loop = bool(self._loopstack)
+    for x, lns in free.items():
+      if in_loop and len(lns) > 1:
+        return False
+      if any(def_line < ln < use_line or (in_loop and ln >= use_line) for ln in lns):
+        return False
+    return True
+
   def _new(self, kind, node) -> Node:
     n = Node(len(self.nodes), kind, node, self._withs, self._trys, None,
              self._loopstack)
@@ -127,6 +199,14 @@ class CFG:
     if isinstance(expr, ast.UnaryOp) and isinstance(expr.op, ast.Not):
       t, f = self._cond(expr.operand, tails)
       return f, t
+    if (isinstance(expr, ast.Name) and expr.id in self._bool_temps
+        and expr.id not in self._inlining and len(self._inlining) < 3
+        and self._inlinable(expr.id, getattr(expr, 'lineno', 0))):
+      self._inlining.append(expr.id)
+      try:
+        return self._cond(self._bool_temps[expr.id][0], tails)
+      finally:
+        self._inlining.pop()
     n = self._new('test', expr)
     self._connect(tails, n)
     if self.may_raise(expr):
